@@ -10,7 +10,7 @@
 Both are armed with an explicit table of the sites that exist today and were read (one line of reason each); anything else is a finding.
 """
 import ast
-from .core import RuleResult, Finding, AnalysisError, dotted, src, norm_construct, guarded
+from .core import RuleResult, Finding, AnalysisError, dotted, src, norm_construct, guarded, as_assert
 
 CREATORS = {'zeros', 'ones', 'empty', 'eye', 'full', 'tensor', 'arange', 'rand', 'randn', 'linspace', 'as_tensor', 'scalar_tensor', 'logspace'}
 
@@ -1126,7 +1126,7 @@ def shape_form_tests(fnode):
         return [dotted(x.value) or src(x.value) for x in ast.walk(e) if isinstance(x, ast.Attribute) and x.attr in ('shape', 'lshape')]
     out = []
     for n in _own_nodes(fnode):
-        if isinstance(n, (ast.If, ast.IfExp, ast.While)):
+        if isinstance(n, (ast.If, ast.IfExp, ast.While)) and not (isinstance(n, ast.If) and as_assert(n) is not None):      # `if not ..: raise` is an assertion spelled out
             for c in ast.walk(n.test):
                 if isinstance(c, ast.Compare) and any(isinstance(o, (ast.Eq, ast.NotEq)) for o in c.ops):
                     per = [set(shapes(o)) for o in [c.left] + list(c.comparators)]
@@ -1206,7 +1206,7 @@ def shape_literal_tests(fnode):
     matrix (.., 3, 3) from a vector (.., 3)).  The second-to-last axis of a batched vector is a batch axis: a batch whose last extent is 3 IS (.., 3, 3)."""
     out = []
     for n in _own_nodes(fnode):
-        if isinstance(n, (ast.If, ast.IfExp, ast.While)):
+        if isinstance(n, (ast.If, ast.IfExp, ast.While)) and not (isinstance(n, ast.If) and as_assert(n) is not None):
             for c in ast.walk(n.test):
                 if isinstance(c, ast.Compare):
                     for side in [c.left] + list(c.comparators):
